@@ -88,6 +88,19 @@ func genValidIetfPatch(t *rapid.T, cur map[string]interface{}, st *propStats) (m
 	var work interface{} = cur
 	n := rapid.IntRange(1, 4).Draw(t, "nops")
 	sawCopy := false
+	if rapid.IntRange(0, 5).Draw(t, "numberTest") == 0 {
+		// a number is stored and then tested: RFC 6902 compares numbers by value, whatever their spelling
+		f := rapid.SampledFrom([]float64{0, 1, 100, 0.5, 1e21, 1e-7, -2}).Draw(t, "testedNumber")
+		for _, op := range []map[string]interface{}{{"op": "add", "path": "/num", "value": f}, {"op": "test", "path": "/num", "value": f}} {
+			next, err := refPatch6902(work, op)
+			if err != nil {
+				break
+			}
+			ops = append(ops, op)
+			work = next
+			flags["ietf-number-test"] = true
+		}
+	}
 	for i := 0; i < n; i++ {
 		op := genOp6902(t, work, true)
 		path, _ := op["path"].(string)
@@ -235,6 +248,18 @@ func TestC10_Compose(t *testing.T) {
 		lps, err := libPatches(patches)
 		if err != nil {
 			t.Fatalf("C10: %v", err)
+		}
+		// patches arrive as JSON text in any spelling (member order, escapes, number spellings such as 1.0, 1e0, -0)
+		if rapid.IntRange(0, 2).Draw(t, "spelledPatches") == 0 {
+			lps = lps[:0]
+			for _, p := range patches {
+				lp, err := patch.FromBytes([]byte(spell(t, p, 1)))
+				if err != nil {
+					t.Fatalf("C10 re-spelled patch not parseable: %v", err)
+				}
+				lps = append(lps, lp)
+			}
+			labels = append(labels, "patches-respelled")
 		}
 		journal("ApplyPatches", []byte(refJCS(map[string]interface{}{"doc": start, "patches": patches})))
 		got, err := composer.ApplyPatches(libDoc(start), lps)
